@@ -31,6 +31,27 @@ func runC17(c *Ctx) {
 	}
 	fn, an := c.Analysis(fi)
 	_ = fi.Pkg.TypesInfo
+	// "re-run until it succeeds": a run fails only when a call it makes fails. An error Upgrade concludes by itself from
+	// the state it finds (which may be the half-way state an interrupted run has left) makes every re-run fail the same way.
+	{
+		nRet := 0
+		for _, bd := range fn.Bodies() {
+			ownNodes(bd, func(x ast.Node) {
+				ret, ok := x.(*ast.ReturnStmt)
+				if !ok || len(ret.Results) == 0 {
+					return
+				}
+				last := ret.Results[len(ret.Results)-1]
+				if isNilExpr(fi.Pkg.TypesInfo, last) {
+					return
+				}
+				nRet++
+				c.Check(!madeUpError(fi.Pkg.TypesInfo, last), "C17.5-fails-only-when-a-call-fails", fmt.Sprintf("Upgrade: error return #%d", nRet), ret.Pos(), "returns the error of a call",
+					"Upgrade gives up with an error of its own making, on a state it has found (no call has failed): if that state is what an interrupted run leaves behind, no re-run ever gets past it")
+			})
+		}
+		c.Floor("C17.5-error-returns", nRet, 5)
+	}
 	// C17.1 effect whitelist
 	effs := c.G.Effects(fi.Obj)
 	var ks []string
